@@ -58,17 +58,18 @@ GRID = {
     "DistBernoulli": [[PFv(0.0)], [PFv(1.0)], [PFv(0.3)]],
     "DistBeta": [[PFv(0.5), PFv(0.5)], [PFv(1.0), PFv(1.0)], [PFv(2.0), PFv(3.0)], [PFv(0.7), PFv(2.5)], [PFv(5.0), PFv(0.3)],
                  [PIv(2), PIv(2)]],
-    "DistBinomial": [[PIv(1), PFv(0.5)], [PIv(5), PFv(0.3)], [PIv(12), PFv(0.0)], [PIv(8), PFv(1.0)], [PIv(30), PFv(0.73)]],
+    "DistBinomial": [[PIv(1), PFv(0.5)], [PIv(5), PFv(0.3)], [PIv(12), PFv(0.0)], [PIv(8), PFv(1.0)], [PIv(30), PFv(0.73)],
+                     [PIv(1100), PFv(0.5)], [PIv(2000), PFv(0.3)], [PIv(1500), PFv(0.0)]],      # comb(n, k) beyond the float range
     "DistConstant": [[PFv(2.0)], [PIv(3)]],
     "DistDiscreteUniform": [[PIv(1), PIv(6)], [PIv(-3), PIv(2)], [PIv(0), PIv(1)]],
     "DistErlang": [[PFv(2.0), PIv(1)], [PFv(0.5), PIv(3)], [PFv(1.5), PIv(9)], [PFv(2.0), PIv(10)], [PFv(0.7), PIv(15)],
-                   [PIv(2), PIv(4)]],
+                   [PIv(2), PIv(4)], [PFv(0.5), PIv(120)], [PFv(1.0), PIv(200)]],               # (lambda x)**(k-1), (k-1)! beyond the float range
     "DistExponential": [[PFv(0.5)], [PFv(2.0)], [PIv(3)]],
     "DistGamma": [[PFv(0.5), PFv(2.0)], [PFv(1.0), PFv(2.0)], [PIv(1), PIv(1)], [PFv(2.5), PFv(0.7)], [PFv(10.0), PFv(3.0)],
                   [PFv(0.999), PFv(1.0)], [PFv(1.001), PFv(1.0)]],
-    "DistGeometric": [[PFv(0.5)], [PFv(0.05)], [PFv(0.95)]],
+    "DistGeometric": [[PFv(0.5)], [PFv(0.05)], [PFv(0.95)], [PFv(0.001)]],
     "DistLogNormal": [[PFv(0.0), PFv(1.0)], [PFv(1.5), PFv(0.25)], [PFv(-1.0), PFv(2.0)], [PIv(0), PIv(1)]],
-    "DistNegBinomial": [[PIv(1), PFv(0.5)], [PIv(3), PFv(0.3)], [PIv(6), PFv(0.8)]],
+    "DistNegBinomial": [[PIv(1), PFv(0.5)], [PIv(3), PFv(0.3)], [PIv(6), PFv(0.8)], [PIv(600), PFv(0.5)]],
     "DistNormal": [[PFv(0.0), PFv(1.0)], [PFv(5.0), PFv(2.0)], [PFv(-3.0), PFv(0.5)], [PIv(1), PIv(2)]],
     "DistNormalTrunc": [[PFv(0.0), PFv(1.0), PFv(-1.0), PFv(2.0)], [PFv(0.0), PFv(1.0), PFv(0.0), PFv(INF)],
                         [PFv(0.0), PFv(1.0), PFv(-INF), PFv(1.0)], [PFv(10.0), PFv(2.0), PFv(9.0), PFv(14.0)],
@@ -76,7 +77,7 @@ GRID = {
     "DistPearson5": [[PFv(2.0), PFv(3.0)], [PFv(0.5), PFv(1.0)], [PFv(1.0), PFv(2.0)], [PFv(5.0), PFv(0.5)]],
     "DistPearson6": [[PFv(2.0), PFv(3.0), PFv(1.5)], [PFv(0.5), PFv(2.0), PFv(1.0)], [PFv(1.0), PFv(1.0), PFv(2.0)],
                      [PFv(3.0), PFv(0.6), PFv(0.5)]],
-    "DistPoisson": [[PFv(0.5)], [PFv(3.0)], [PFv(7.5)], [PFv(30.0)]],
+    "DistPoisson": [[PFv(0.5)], [PFv(3.0)], [PFv(15.0)], [PFv(22.5)], [PFv(60.0)], [PFv(7.5)], [PFv(30.0)], [PFv(200.0)]],
     "DistTriangular": [[PFv(1.0), PFv(2.0), PFv(4.0)], [PFv(1.0), PFv(1.0), PFv(2.0)], [PFv(1.0), PFv(2.0), PFv(2.0)],
                        [PFv(-2.0), PFv(0.5), PFv(3.0)], [PFv(0.0), PFv(0.001), PFv(1.0)], [PIv(1), PIv(2), PIv(4)]],
     "DistUniform": [[PFv(1.0), PFv(4.0)], [PFv(-2.5), PFv(2.5)], [PFv(0.0), PFv(0.001)]],
@@ -95,14 +96,14 @@ def random_params(rng, cname):
     if cname == "DistBeta":
         return [shape(), shape()]
     if cname == "DistBinomial":
-        return [PIv(rng.randint(1, 40)), PFv(rng.random())]
+        return [PIv(rng.randint(1, 40) if rng.random() < 0.8 else rng.randint(900, 3000)), PFv(rng.random())]
     if cname == "DistConstant":
         return [PFv(u(-5, 5))]
     if cname == "DistDiscreteUniform":
         lo = rng.randint(-10, 10)
         return [PIv(lo), PIv(lo + rng.randint(1, 30))]
     if cname == "DistErlang":
-        return [PFv(u(0.1, 5.0)), PIv(rng.choice([1, 2, 4, 9, 10, 11, 18]))]
+        return [PFv(u(0.1, 5.0)), PIv(rng.choice([1, 2, 4, 9, 10, 11, 18, 18, 150, 250]))]
     if cname == "DistExponential":
         return [PFv(u(0.05, 20.0))]
     if cname == "DistGamma":
@@ -112,7 +113,7 @@ def random_params(rng, cname):
     if cname == "DistLogNormal":
         return [PFv(u(-2, 2)), PFv(u(0.1, 1.5))]
     if cname == "DistNegBinomial":
-        return [PIv(rng.randint(1, 8)), PFv(u(0.05, 0.95))]
+        return [PIv(rng.randint(1, 8) if rng.random() < 0.8 else rng.randint(300, 900)), PFv(u(0.05, 0.95))]
     if cname == "DistNormal":
         return [PFv(u(-10, 10)), PFv(u(0.1, 5.0))]
     if cname == "DistNormalTrunc":
@@ -126,7 +127,7 @@ def random_params(rng, cname):
     if cname == "DistPearson6":
         return [shape(), shape(), PFv(u(0.2, 5.0))]
     if cname == "DistPoisson":
-        return [PFv(u(0.05, 40.0))]
+        return [PFv(u(0.05, 40.0) if rng.random() < 0.8 else u(40.0, 600.0))]
     if cname == "DistTriangular":
         lo = u(-5, 5)
         hi = lo + u(0.1, 10)
@@ -196,16 +197,38 @@ def typical_scale(cname, ps):
     return 0.0, 1.0
 
 
+def discrete_mean_sd(cname, v):
+    if cname == "DistBernoulli":
+        return v[0], math.sqrt(v[0] * (1 - v[0])) + 0.5
+    if cname == "DistBinomial":
+        return v[0] * v[1], math.sqrt(v[0] * v[1] * (1 - v[1])) + 0.5
+    if cname == "DistDiscreteUniform":
+        return 0.5 * (v[0] + v[1]), (v[1] - v[0]) / 3.5 + 0.5
+    if cname == "DistGeometric":
+        return (1 - v[0]) / v[0], math.sqrt(1 - v[0]) / v[0] + 0.5
+    if cname == "DistNegBinomial":
+        return v[0] * (1 - v[1]) / v[1], math.sqrt(v[0] * (1 - v[1])) / v[1] + 0.5
+    return v[0], math.sqrt(v[0]) + 0.5          # Poisson
+
+
 def gen_calls(rng, cname, ps):
     """[[method, arg], ...]: support boundaries, branch points, interior, outside, random"""
     calls = []
     if cname in DISC:
         v = [pval(p) for p in ps]
         lo, hi = ((0, 1) if cname == "DistBernoulli" else (0, v[0]) if cname == "DistBinomial"
-                  else (v[0], v[1]) if cname == "DistDiscreteUniform" else (0, 12))
-        ks = {lo - 2, lo - 1, lo, lo + 1, hi - 1, hi, hi + 1, hi + 3}
+                  else (v[0], v[1]) if cname == "DistDiscreteUniform" else (0, None))
+        mean, sd = discrete_mean_sd(cname, v)
+        top = hi if hi is not None else int(mean + 6 * sd) + 12
+        ks = {lo - 2, lo - 1, lo, lo + 1, top - 1, top, top + 1, top + 3}
+        # across the bulk of the support, where the sampler puts its mass
+        for z in (-3.0, -2.0, -1.0, -0.5, 0.0, 0.5, 1.0, 2.0, 3.0, 4.5):
+            ks.add(int(round(mean + z * sd)))
         for _ in range(6):
-            ks.add(rng.randint(lo, max(hi, lo + 20) if cname in ("DistGeometric", "DistNegBinomial", "DistPoisson") else hi))
+            ks.add(int(round(rng.gauss(mean, sd))))
+            ks.add(rng.randint(lo, top))
+        if hi is None:
+            ks.update([171, 200, 1000])          # factorials / powers beyond the float range
         return [["probability", PIv(k)] for k in sorted(ks)]
     lo, hi = support_of(cname, ps)
     c, w = typical_scale(cname, ps)
@@ -461,12 +484,22 @@ def gen_draw_cases(rng, n_random):
 
 # ------------------------------------------------------------------ statistical search (only after a broken tie)
 def stat_threshold(cname):
-    return 0.035
+    """continuous: Kolmogorov distance from quadrature of the declared density; discrete: standard-normal score of the
+    chi-square statistic against the class's own probability() (6.0 ~ a tail probability of 1e-9)"""
+    return 6.0 if cname in DISC else 0.035
+
+
+def sample_size(cname, ps):
+    if cname not in DISC:
+        return 20000
+    mean, _sd = discrete_mean_sd(cname, [pval(p) for p in ps])
+    per_draw = {"DistPoisson": mean + 1, "DistBinomial": pval(ps[0]), "DistNegBinomial": pval(ps[0])}.get(cname, 1)
+    return int(min(100000, max(20000, 5e6 / max(per_draw, 1))))
 
 
 def statistical_search(run, suspects, seed):
     """suspects: [(cls, params)].  Returns the first (cls, params, seed, distance, detail) beyond the threshold."""
-    cases = [{"cls": c, "params": ps, "seed": seed + 17 * j, "n": 20000, "far": far_of({"cls": c, "params": ps})}
+    cases = [{"cls": c, "params": ps, "seed": seed + 17 * j, "n": sample_size(c, ps), "far": far_of({"cls": c, "params": ps})}
              for j, (c, ps) in enumerate(suspects)]
     res = run_parallel(IMPL15, "stats", cases, workers=min(8, max(1, len(cases))))
     worst = None
@@ -602,7 +635,7 @@ def main(tier: str) -> int:
     tie_suspects = []
     if tie and not run.violations:
         for cls in [c for c in tie.get("classes", []) if c in GRID and c not in explained_classes][:6]:
-            for ps in GRID[cls][:4]:
+            for ps in GRID[cls][:(6 if cls in DISC else 4)]:
                 tie_suspects.append((cls, ps))
     hit = None
     if broken or tie_suspects:
@@ -615,10 +648,12 @@ def main(tier: str) -> int:
         run.cov["suspects_searched_statistically"] = len(suspects)
     if hit:
         cs, r, err = hit
+        disc = cs["cls"] in DISC
         what = (f"{cs['cls']}{tuple(pval(p) for p in cs['params'])}: a seeded sample of {cs['n']} draws (MersenneTwister({cs['seed']})) "
-                f"does not follow the declared density: distance {r['distance']!r} ({r['detail']})" if not err else
+                f"does not follow the declared {'probability function' if disc else 'density'}: "
+                f"{'score' if disc else 'distance'} {r['distance']!r} ({r['detail']})" if not err else
                 f"{cs['cls']}{tuple(pval(p) for p in cs['params'])}: {err}")
-        run.violation(f"sample-does-not-follow-density:{cs['cls']}", what,
+        run.violation(f"sample-does-not-follow-{'probability' if disc else 'density'}:{cs['cls']}", what,
                       {"class": cs["cls"], "params": cs["params"], "seed": cs["seed"], "n": cs["n"],
                        "distance": r.get("distance"), "threshold": stat_threshold(cs["cls"]),
                        "how": "harness/c15_impl.py mode 'stats' on this case"})
